@@ -22,7 +22,7 @@ from pmc.engine import core
 from pmc.ref import rxn as R
 
 ID = 'C09'
-RULE = ('three full products: (clamp) class x species kind x landscape (H_R,H_TS,H_P in {-1,-.5,0,.5,1} eV, '
+RULE = ('three full products and one family of histories: (clamp) class x species kind x landscape (H_R,H_TS,H_P in {-1,-.5,0,.5,1} eV, '
         'S_TS,S_P in {0,5,-5} R) x TS {none, explicit, BEP(slope,intercept)} x T x P, both directions, four getters; '
         '(bep) descriptor x slope x intercept x body x T x class, both directions; (A) class x reactant pattern '
         '(0-3 surface reactants on 1-2 sites, bulk species, gas partner) x site densities x operation x TS x '
